@@ -564,6 +564,17 @@ impl<'a> Gen<'a> {
             let implicit = format!("{prefix}{}", alias.clone().unwrap_or(name.clone()));
             outputs.push(self.pick_output_name(implicit));
             self.any_output = true;
+            if self.t.chance(1, 8) {
+                // the same property output twice under two names
+                let n = loop {
+                    let n = self.fresh("o");
+                    if !self.out_names.contains(&n) {
+                        break n;
+                    }
+                };
+                self.out_names.insert(n.clone());
+                outputs.push(Some(n));
+            }
         }
         let mut filters = vec![];
         if self.cfg.f_filters {
@@ -577,7 +588,12 @@ impl<'a> Gen<'a> {
         let mut tags = vec![];
         let want_tag = if self.cfg.bias_tags { self.t.chance(2, 3) } else { self.t.chance(1, 3) };
         if self.cfg.f_tags && want_tag {
-            let tname = self.fresh("t");
+            // implicit tag name (alias, else field name) when it is still free
+            let implicit = alias.clone().unwrap_or(name.clone());
+            let use_implicit = self.t.chance(1, 4)
+                && valid_name(&implicit)
+                && !self.tags.iter().any(|t| t.name == implicit);
+            let tname = if use_implicit { implicit } else { self.fresh("t") };
             self.tags.push(TagInfo {
                 name: tname.clone(),
                 ty: ty.clone(),
@@ -585,7 +601,7 @@ impl<'a> Gen<'a> {
                 path: path.to_vec(),
                 used: false,
             });
-            tags.push(Some(tname));
+            tags.push(if use_implicit { None } else { Some(tname) });
         }
         Some(QProp { name, alias, ty, outputs, tags, filters })
     }
@@ -751,9 +767,10 @@ fn strip_unused_tags(n: &mut QNode, unused: &BTreeSet<String>) {
     for it in n.items.iter_mut() {
         match it {
             QItem::Prop(p) => {
+                let implicit = p.alias.clone().unwrap_or(p.name.clone());
                 p.tags.retain(|t| match t {
                     Some(name) => !unused.contains(name),
-                    None => true,
+                    None => !unused.contains(&implicit),
                 });
             }
             QItem::Edge(e) => {
